@@ -29,7 +29,7 @@ def one(d):
 def main():
     subs = sys.argv[1:]
     dirs = [d for d in sorted(glob.glob('/verif/seeded/*')) if os.path.exists(d + '/patch.diff') and (not subs or any(s in os.path.basename(d) for s in subs))]
-    with concurrent.futures.ThreadPoolExecutor(max_workers=4) as ex:
+    with concurrent.futures.ThreadPoolExecutor(max_workers=14) as ex:
         for d, det, ae in ex.map(one, dirs):
             if det is None:
                 print(os.path.basename(d), 'PATCH DOES NOT APPLY'); continue
